@@ -12,7 +12,7 @@ def _sum(terms):
 
 def cauchy(a, b, na, nb, k):
     """coefficient k of the product of polynomials with na resp. nb coefficients"""
-    return _sum(['%s * %s' % (a % i, b % (k - i)) for i in range(na) if 0 <= k - i < nb])
+    return _sum(['BS_MUL(%s, %s)' % (a % i, b % (k - i)) for i in range(na) if 0 <= k - i < nb])
 
 
 def padadd(a, b, na, nb, k):
